@@ -11,18 +11,96 @@ pub proof fn axiom_vcell_into_self()
             forall|c: VCell| #[trigger] <VCell as vstd::std_specs::convert::IntoSpec<VCell>>::into_spec(c) == c {}
 '''
 
+APPLY_PRELUDE = r'''
+/// Vm::pop (run.rs): pops one cell and reads it through the heap
+pub assume_specification [Vm::pop] (vm: &mut Vm) -> (r: Result<VCell, Error>)
+    requires old(vm).stack_spec().wf()
+    ensures old(vm).stack_spec().sp_spec() > 0 ==> (r matches Ok(c) && c == heap_deref(old(vm).heap_spec(), arg(*old(vm), 0)) && popped(*old(vm), *final(vm), 1)),
+            r is Err ==> final(vm).stack_spec().wf();
+/// (the same axiom as axiom_cow_cell_ref, for every reference at once: `Cow::from(&cell)` borrows that cell)
+#[verifier::external_body]
+pub proof fn axiom_cow_cell_ref_all() ensures forall|c: &VCell| #[trigger] cow_cell::<&VCell>(c) == *c {}
+/// j-th cell of the list that starts at (dereferenced) cell `start`, following cdr pointers through heap h
+pub open spec fn spine_cell(h: crate::vm::heap::Heap, start: VCell, j: nat) -> VCell decreases j {
+    if j == 0 { start } else { match spine_cell(h, start, (j - 1) as nat) { VCell::Pair(a, d) => heap_deref(h, VCell::Ptr(d)), _ => VCell::Undefined } }
+}
+/// state of the spreading loop after j list elements: k shifted arguments, then j car pointers, `rest` is the j-th list cell
+pub open spec fn apply_progress(old: Vm, cur: Vm, k: int, j: nat, rest: VCell) -> bool {
+    let s0 = old.stack_spec(); let s1 = cur.stack_spec(); let sp = s0.sp_spec() as int; let base = sp - 2 - k;
+    let lst = heap_deref(old.heap_spec(), s0.cells()[sp - 1]);
+    &&& s1.sp_spec() == base + k - 1 + j && s1.cells().len() >= s0.cells().len()
+    &&& rest == spine_cell(old.heap_spec(), lst, j)
+    &&& forall|i: int| base <= i < base + k ==> #[trigger] s1.cells()[i] == s0.cells()[i + 1]
+    &&& forall|t: nat| t < j ==> (spine_cell(old.heap_spec(), lst, t) matches VCell::Pair(a, d) && #[trigger] s1.cells()[base + k + t] == VCell::Ptr(a))
+    &&& forall|i: int| 0 <= i < base ==> #[trigger] s1.cells()[i] == s0.cells()[i]
+}
+/// what (apply proc a1 .. ak list) leaves for the re-dispatched call: proc's slot and the k + 2 argument slots are replaced by
+/// a1 .. ak followed by the m elements of the list (pointers to the cars themselves) and the new argument count k + m;
+/// nothing below proc's slot is touched
+pub open spec fn applied(old: Vm, new: Vm, k: int, m: nat) -> bool {
+    let s0 = old.stack_spec(); let s1 = new.stack_spec(); let sp = s0.sp_spec() as int; let base = sp - 2 - k;
+    let lst = heap_deref(old.heap_spec(), s0.cells()[sp - 1]);
+    &&& s1.wf() && s1.sp_spec() == base + k + m
+    &&& s1.cells()[base + k + m] == VCell::ArgumentCount((k + m) as usize)
+    &&& forall|i: int| base <= i < base + k ==> #[trigger] s1.cells()[i] == s0.cells()[i + 1]
+    &&& forall|j: nat| j < m ==> (spine_cell(old.heap_spec(), lst, j) matches VCell::Pair(a, d) && #[trigger] s1.cells()[base + k + j] == VCell::Ptr(a))
+    &&& spine_cell(old.heap_spec(), lst, m) is Nil
+    &&& forall|i: int| 0 <= i < base ==> #[trigger] s1.cells()[i] == s0.cells()[i]
+    &&& new.heap_spec() == old.heap_spec()
+    &&& new.regs() == (old.regs().0, (old.regs().1.0, (old.regs().1.1 - 1) as usize), old.regs().2)
+}
+'''
+
 C5 = ['C05']
+C4 = ['C04']
 UNITS = [{
     'name': 'builtin_procedure',
     'file': 'src/vm/builtin/procedure.rs',
     'uses_types': ['VCell', 'Error', 'Heap', 'Continuation', 'Cell'],
-    'prelude': PRELUDE,
+    'prelude': PRELUDE + APPLY_PRELUDE,
     'fns': {
+        # apply hands control back to the CALL / TCALL that dispatched it (ip - 1) with the procedure in its result and exactly the
+        # spread arguments on the stack: no slot is left behind, so a tail call made through apply stays a tail call
+        '::apply': {
+            'props': C4 + ['C14', 'C06'],
+            # the argument count on top of the stack counts argument slots that are really there (CALL / TCALL push them first)
+            'requires': ['old(vm).stack_spec().wf()', 'old(vm).regs().1.1 >= 1',
+                         'arg(*old(vm), 0) matches VCell::ArgumentCount(n) ==> n < old(vm).stack_spec().sp_spec()'],
+            'attrs': '#[verifier::exec_allows_no_decreases_clause]',
+            'body_start': 'proof { axiom_vcell_into_self(); axiom_cow_cell_ref_all(); crate::vm::stack::axiom_stack_len(old(vm).stack_spec()); if old(vm).stack_spec().sp_spec() > 0 { axiom_cow_cell_ref(&arg(*old(vm), 0)); } }',
+            'ensures': [
+                (C4, '''r matches Ok(p) ==> (old(vm).stack_spec().sp_spec() >= 2 && (arg(*old(vm), 0) matches VCell::ArgumentCount(n) && n >= 2
+                    && old(vm).stack_spec().sp_spec() >= n && p == arg(*old(vm), n as int)
+                    && exists|m: nat| #[trigger] applied(*old(vm), *final(vm), n - 2, m)))'''),
+            ],
+            'inserts': [
+                {'anchor': 'Ok(proc)', 'where': 'before', 'text': '''proof {
+                    match arg(*old(vm), 0) {
+                        VCell::ArgumentCount(n) => { assert(applied(*old(vm), *vm, n as int - 2, (argc - (n - 2)) as nat)); }
+                        _ => {}
+                    }
+                }'''},
+            ],
+            'loop_iter': {0: 'it0'},
+            'loops': {
+                0: '''invariant
+                    vm.stack_spec().wf(), vm.stack_spec().sp_spec() == old(vm).stack_spec().sp_spec() - 2, vm.stack_spec().cells().len() == old(vm).stack_spec().cells().len(),
+                    vm.heap_spec() == old(vm).heap_spec(), vm.regs() == old(vm).regs(), argc >= 2, old(vm).stack_spec().sp_spec() >= argc,
+                    arg(*old(vm), 0) == VCell::ArgumentCount(argc),
+                    // the first it0.index@ arguments (from the bottom) have moved down by one slot
+                    forall|i: int| old(vm).stack_spec().sp_spec() - argc <= i < old(vm).stack_spec().sp_spec() - argc + it0.index@ ==> #[trigger] vm.stack_spec().cells()[i] == old(vm).stack_spec().cells()[i + 1],
+                    forall|i: int| 0 <= i < old(vm).stack_spec().cells().len() && !(old(vm).stack_spec().sp_spec() - argc <= i < old(vm).stack_spec().sp_spec() - argc + it0.index@) ==> #[trigger] vm.stack_spec().cells()[i] == old(vm).stack_spec().cells()[i],''',
+                1: '''invariant
+                    vm.stack_spec().wf(), vm.heap_spec() == old(vm).heap_spec(), vm.regs() == old(vm).regs(),
+                    arg(*old(vm), 0) matches VCell::ArgumentCount(n) && n >= 2 && old(vm).stack_spec().sp_spec() >= n && argc >= n - 2
+                        && apply_progress(*old(vm), *vm, n - 2, (argc - (n - 2)) as nat, rest),''',
+            },
+            'loop_count': 2,
+        },
         '::call_cc': {
             'props': C5 + ['C06'],
             # the instruction pointer has already moved past the CALL that dispatched this builtin
-            'requires': ['old(vm).stack_spec().wf()', 'old(vm).regs().1.1 >= 1',
-                         'old(vm).stack_spec().sp_spec() + 2 >= old(vm).stack_spec().cells().len() ==> old(vm).stack_spec().can_grow()'],
+            'requires': ['old(vm).stack_spec().wf()', 'old(vm).regs().1.1 >= 1'],
             'body_start': 'proof { axiom_vcell_into_self(); if old(vm).stack_spec().sp_spec() > 1 { axiom_cow_cell_ref(&arg(*old(vm), 1)); } }',
             'inserts': [
                 {'anchor': 'vm.stack.push(ArgumentCount(1));', 'where': 'before', 'text': 'let ghost s1 = vm.stack_spec();'},
